@@ -503,6 +503,15 @@ def run_check(prop, tier, seed, meta, instances, build, level='model_checking', 
     """Runs all instances 16-wide, handles witness twins / replay / known findings, writes evidence,
     prints VIOLATION / KNOWN-FINDING lines and returns the process exit status."""
     t0 = time.time()
+    # instance names key the per-instance work directory, the result table and the known-findings match: two instances with one name
+    # would share a directory (the first to pass removes it under the second) and one result would hide the other
+    seen, dups = set(), set()
+    for i in instances:
+        k = re.sub(r'[^A-Za-z0-9_.+-]', '_', i.name)
+        (dups if k in seen else seen).add(k)
+    if dups:
+        log('BROKEN: duplicate instance names in %s: %s' % (prop, ', '.join(sorted(dups))))
+        return 2
     rn = Runner(build, prop, tier, seed)
     known = load_known(prop)
     rng = random.Random(seed)
